@@ -8,7 +8,7 @@ from . import common
 ID = 'C04'
 LEVEL = 'exploration'
 BUDGET = {'quick': (40000, 80.0), 'thorough': (600000, 1500.0)}
-RULE = ('2-4 real CAs on separate stacks with distinct 64-bit NAMEs (all orderings relative to start order), each arbitrary-address-capable or not, preferred '
+RULE = ('2-4 real CAs on separate stacks with distinct 64-bit NAMEs (unrelated, small, or siblings differing in one NAME field; all orderings relative to start order), each arbitrary-address-capable or not, preferred '
         'addresses equal / adjacent / distinct in the immediate and veto ranges, start instants and claim delays on the grid {0,10,240,249,250,251,260,490,500,510,750 ms, '
         'random}, latency policies in [0, 5 ms] incl. synchronous delivery; invariants are evaluated on final CA states and the bus record. non-trivial = at least two '
         'CAs announced the same address; distinct = distinct scenario JSON')
